@@ -42,7 +42,7 @@ pub fn all_cells() -> Vec<harness::Cell> {
     v.extend(hg_gn1::cells()); v.extend(hg_gn2::cells()); v.extend(hg_gn3::cells());
     #[cfg(feature = "thorough")]
     v.extend(hg_gn4::cells());
-    v.extend(hg_gopt::cells()); v.extend(hg_gali::cells()); v.extend(hg_gmut::cells()); v.extend(hg_gord::cells()); v.extend(hg_gcase::cells());
+    v.extend(hg_gopt::cells()); v.extend(hg_gali::cells()); v.extend(hg_gmut::cells()); v.extend(hg_gord::cells()); v.extend(hg_gcase::cells()); v.extend(hg_gfwd::cells());
     v
 }
 
@@ -51,6 +51,6 @@ pub fn all_layouts() -> Vec<harness::LayoutCell> {
     v.extend(hg_gn1::layouts()); v.extend(hg_gn2::layouts()); v.extend(hg_gn3::layouts());
     #[cfg(feature = "thorough")]
     v.extend(hg_gn4::layouts());
-    v.extend(hg_gopt::layouts()); v.extend(hg_gali::layouts()); v.extend(hg_gmut::layouts()); v.extend(hg_gord::layouts()); v.extend(hg_gcase::layouts());
+    v.extend(hg_gopt::layouts()); v.extend(hg_gali::layouts()); v.extend(hg_gmut::layouts()); v.extend(hg_gord::layouts()); v.extend(hg_gcase::layouts()); v.extend(hg_gfwd::layouts());
     v
 }
